@@ -16,7 +16,7 @@ ID = 'C06'
 LEVEL = 'exploration'
 N = {'quick': 32000, 'thorough': 800000}
 RULE = ('generated strict-ranking elections under wigm (all arithmetics), wigm-prf(-batch), cfer(-batch), scotland, mpls, with multipliers > 1 '
-        'and long rankings so that the same ballots pass through several surplus transfers; non-trivial = some ballot line is re-weighted '
+        'and long rankings so that the same ballots pass through several surplus transfers (3 % narrow-surplus chains where values truncate to zero); the set of ballot lines must not change; non-trivial = some ballot line is re-weighted '
         '>= 2 times and at least one re-weighting is inexact (rounded down); distinct = distinct case JSON')
 TECHNIQUE = 'property-based testing: per-ballot shadow model (position, value) replayed against snapshots at every action; exact floor formula in Fractions'
 LEVEL_TEXT = 'every ballot line of every generated count is followed through all recorded actions and compared with the exact formula'
